@@ -61,7 +61,7 @@ def replay(ck, beh, label, geos=GEOS):
       m = r["mismatches"][0]
       ck.violation(f"ds|{sig}|{m['clause']}",
                    f"{label}: step {m['step']} param {m.get('param')}: {m['clause']} (rel. diff {m.get('detail')}); "
-                   f"cfg={c} geo={j['geo']}", {"job": j, "mismatches": r["mismatches"][:8]})
+                   f"cfg={c} geo={j['geo']}", {"worker": "harness.workers.ds_terms", "x64": True, "job": j, "mismatches": r["mismatches"][:8]})
     else:
       ck.traces_ok(1)
   ck.cov["env_deviations"] = ck.cov.get("env_deviations", 0) + dev
@@ -107,7 +107,7 @@ def probe_leg(ck, n):
     else:
       ck.violation(f"ds|probe|{v['verdict']}",
                    f"coefficient probe: trace rejected at step {v['l'] - 1} ({v['verdict']}); cfg={t['cfg']}",
-                   {"trace": t, "verdict": v})
+                   {"trace_module": "DSTerms_Trace", "trace": t, "verdict": v})
   ck.sample({"probe_trace": {"cfg": traces[0]["cfg"], "coef_row_T": traces[0]["coef"][-1], "cx": traces[0]["cx"]}})
   bad = copy.deepcopy(traces[0])
   m, e = bad["coef"][-1][-1]
